@@ -62,6 +62,13 @@ impl Decoder for FrameCodec {
         use bytes::Buf;
         use serde_amqp::de::Deserializer;
 
+        // The rest of the 8-byte frame header (doff, type, ignored) must be present
+        if src.len() < 4 {
+            return Err(Error::DecodeError(
+                "Frame is shorter than the frame header".to_string(),
+            ));
+        }
+
         let doff = src.get_u8();
         let ftype = src.get_u8();
         let _ignored = src.get_u16();
